@@ -538,13 +538,17 @@ func r17snssaiCtor(c *core.Ctx) {
 		c.Undecided("package %s not loaded", pNasTP)
 	}
 	n := 0
-	for _, f := range allFuncsOf(sp) {
+	fs := allFuncsOf(sp)
+	if cp := c.P.SSAPkg(pNasC); cp != nil {
+		fs = append(fs, allFuncsOf(cp)...) // a constructor may delegate the IE to a conversion helper
+	}
+	for _, f := range fs {
 		p := core.NewPather(f)
 		calls := core.CallsTo(f, pNasT+".SNSSAI.SetLen")
 		ord := ordinals{}
 		for _, ci := range calls {
 			n++
-			key := "nasTestpacket." + f.Name() + ":" + ord.next("SNSSAI.SetLen")
+			key := shortName(core.FuncName(f)) + ":" + ord.next("SNSSAI.SetLen")
 			k, isK := core.ConstInt(ci.Common().Args[1])
 			if !isK {
 				c.SoftUndecided("%s: S-NSSAI length is not a constant (%s)", f.Name(), clip(p.Path(ci.Common().Args[1])))
